@@ -363,7 +363,9 @@ def param_mutations(repo, mod, qual, depth=0, _seen=None, extra=frozenset()):
         return {}
     _seen.add((mod.rel, qual))
     ev = Ev(mod.funcs[qual], mod.ctx).run()
-    params = set(ev.param_names)
+    fa = mod.funcs[qual].args
+    # **kwargs / *args are fresh containers of every call: popping from them changes nothing of the caller's
+    params = set(ev.param_names) - {x.arg for x in (fa.kwarg, fa.vararg) if x is not None}
     out = {}
 
     def hit(roots, what, e):
